@@ -91,7 +91,7 @@ Proof.
   - apply ev_bc_wf; auto.
   - apply ev_bc_wf; auto.
   - (* ETimer *)
-    destruct (nth_error (c_timers C) t) as [[i h|i|p a]|]; [| | |exact T].
+    destruct (nth_error (c_timers C) t) as [[i h|i|p a|p]|]; [| | | |exact T].
     + unfold creq_at. destruct (nth_error (c_bcs C) i) as [b|] eqn:Eb; [|exact T].
       destruct (nth_error (b_reqs b) h) as [[ow [t'|] to]|] eqn:Eq; try exact T.
       destruct (Nat.eqb t t'); [|exact T].
@@ -111,6 +111,10 @@ Proof.
     + destruct (phase_of C p); try exact T. destruct (Nat.eqb a a0 && Nat.eqb t t0); [|exact T].
       pose proof (boot_next_core C p rest) as Y. destruct (boot_next C p rest). cbn [fst] in *.
       eapply TInvC_same_core; [exact T | exact Y].
+    + destruct (phase_of C p); try exact T. destruct (Nat.eqb t t0); [|exact T]. unfold next_id. cbn [fst snd].
+      set (C1 := with_corr C _). set (C2 := restart_op C1 p _).
+      assert (TInvC [] C2) as T2 by (eapply TInvC_same_core; [exact T | unfold C2, C1; score]).
+      destruct (c_clients C2); [apply op_known_wf; exact T2 | eapply TInvC_same_core; [exact T2 | apply op_fail_core]].
   - (* EBootOk *)
     destruct (nth_error (c_boots C) a) as [[[p rid] [| |]]|]; try exact T.
     destruct (phase_of C p); try exact T. destruct (Nat.eqb a a0); [|exact T].
